@@ -99,8 +99,9 @@ func runC04(rc *RunCtx) {
 	const GB = int64(1_000_000_000)
 	sizes := []int64{GB, 3 * GB, GB - 1, 4999 * GB, 5000 * GB, 19_999 * GB, 20_000 * GB, 50_000 * GB, 2*GB + 7}
 	durs := []int64{29, 30, 31, 364, 365, 366, 730, 1095, 45}
-	refs := []string{"", "", c.Accs[0].Bech, c.Accs[2].Bech, "ref.jkl", "nobody.jkl", feeCol, "%%garbage", c.Accs[1].Bech}
-	refClass := []string{"none", "none", "acc0", "other", "name", "unresolvable", "blocked-module", "garbage", "acc1"}
+	freshRef := sdk.AccAddress([]byte(fmt.Sprintf("c04-fresh-referrer-%d", rc.Intn(1000000)))).String() // a valid address that has never appeared on chain
+	refs := []string{"", "", c.Accs[0].Bech, c.Accs[2].Bech, "ref.jkl", "nobody.jkl", feeCol, "%%garbage", c.Accs[1].Bech, freshRef}
+	refClass := []string{"none", "none", "acc0", "other", "name", "unresolvable", "blocked-module", "garbage", "acc1", "never-seen-address"}
 
 	// buy delivers one MsgBuyStorage and judges it against the pre-state
 	buy := func(payer, forAcc int, bytes, days int64, ri int, denom string, upper bool) {
